@@ -741,3 +741,16 @@ Definition teardown (c : core) : core :=
   let c1 := drop_ch0 c in
   set_slots (set_qs c1 (fold_left (fun m '(_, s) => drop_slot_qs s m) (c_slots c1) (c_qs c1)))
             (c_ids c1) [].
+
+(* the event loop body: the events of one poll batch in order, stopping at the first error
+   (run_io_loop: `for event in events.iter() { self.handle_steady_event(..)? }`) *)
+Fixpoint run_batch (c : core) (evs : list event) : outcome * core * bytes :=
+  match evs with
+  | [] => (OOk, c, [])
+  | e :: evs' =>
+      let '(o, c1, w) := handle_event c e in
+      match o with
+      | OOk => let '(o2, c2, w2) := run_batch c1 evs' in (o2, c2, w ++ w2)
+      | _ => (o, c1, w)
+      end
+  end.
